@@ -119,7 +119,12 @@ def _abs(I, a, k):
     x = a[0]
     if isinstance(x, SArr):
         if x.dtype.kind == "c":
-            raise Unsupported("abs of complex array")
+            CS = A.sort_of(x.dtype)
+            f = z3.Function("c_abs!uf", CS, z3.RealSort())
+            z = z3.Const(fresh_name("z"), CS)
+            A.note_fact(z3.ForAll([z], f(z) >= 0, patterns=[f(z)]))
+            dt = np.dtype("float32") if x.dtype == np.dtype("complex64") else np.dtype("float64")
+            return A.ewise(lambda t: f(t), dt, x)
         return A.ewise(lambda t: z3.If(t >= 0, t, -t), x.dtype, x)
     t = term(x)
     return wrap(z3.If(t >= 0, t, -t))
@@ -1412,3 +1417,68 @@ def _complex_opaque(name):
 model(np.exp)(_complex_opaque("exp"))
 model(np.angle)(_complex_opaque("angle"))
 model(np.invert)(lambda I, a, k: (not a[0]) if isinstance(a[0], (bool, np.bool_)) else (ops.unop("Invert", a[0]) if _anysym(a) else NotImplemented))
+
+
+@model(np.convolve)
+def _npconvolve(I, a, k):
+    """A-NP-SPEC shape of np.convolve: full -> M+N-1, same -> max(M,N), valid -> max(M,N)-min(M,N)+1; contents opaque"""
+    if not _anysym(a, k):
+        return NotImplemented
+    x, y = A.as_sarr(a[0]), A.as_sarr(a[1])
+    mode = k.get("mode", a[2] if len(a) > 2 else "full")
+    m, n = A.T(x.shape[0]), A.T(y.shape[0])
+    mx, mn = z3.If(m >= n, m, n), z3.If(m >= n, n, m)
+    ln = {"full": m + n - 1, "same": mx, "valid": mx - mn + 1}[mode]
+    A.oblige("convolve.non_empty", z3.And(m >= 1, n >= 1), "np.convolve raises on empty operands")
+    return A.fresh_array("npconv", "float64", (A.dim(ln),))
+
+
+@model(np.pad)
+def _pad(I, a, k):
+    if not _anysym(a, k):
+        return NotImplemented
+    x = A.as_sarr(a[0])
+    w = a[1]
+    mode = k.get("mode", a[2] if len(a) > 2 else "constant")
+    if x.ndim != 1 or isinstance(w, (tuple, list)) or mode != "edge":
+        raise Unsupported("np.pad other than 1-D, scalar width, mode='edge'")
+    wt, n = term(w), A.T(x.shape[0])
+    A.oblige("pad.width_nonneg", wt >= 0, "np.pad raises on negative widths")
+    s = x.snapshot()
+    return SArr(x.dtype, (A.dim(n + 2 * wt),), lambda idx: s((z3.If(idx[0] < wt, z3.IntVal(0), z3.If(idx[0] >= wt + n, n - 1, idx[0] - wt)),)))
+
+
+def _window_model(name):
+    def m(I, a, k):
+        if not _anysym(a, k):
+            return NotImplemented
+        n = term(a[0])
+        f = z3.Function(fresh_name(name), z3.IntSort(), z3.RealSort())
+        return SArr(np.float64, (A.dim(n),), lambda idx: f(idx[0]))
+    return m
+
+
+for _w in ("blackman", "hamming", "bartlett"):
+    model(getattr(np, _w))(_window_model(_w))
+
+
+@model(np.matmul)
+def _matmul(I, a, k):
+    """opaque product with exact shape for (m,) @ (m, n) and (p, m) @ (m, n); operands are logged"""
+    if not _anysym(a, k):
+        return NotImplemented
+    x, y = A.as_sarr(a[0]), A.as_sarr(a[1])
+    if x.ndim == 1 and y.ndim == 2:
+        A.oblige("matmul.inner", A.T(x.shape[0]) == A.T(y.shape[0]), "matmul inner dimensions")
+        out = A.fresh_array("matmul", "float64", (y.shape[1],))
+    elif x.ndim == 2 and y.ndim == 2:
+        A.oblige("matmul.inner", A.T(x.shape[1]) == A.T(y.shape[0]), "matmul inner dimensions")
+        out = A.fresh_array("matmul", "float64", (x.shape[0], y.shape[1]))
+    else:
+        raise Unsupported("matmul shapes")
+    c = A.cur()
+    if c is not None:
+        if not hasattr(c, "matmul_log"):
+            c.matmul_log = []
+        c.matmul_log.append({"a": x.snapshot(), "a_shape": x.shape, "b": y.snapshot(), "b_shape": y.shape, "out": out.snapshot()})
+    return out
